@@ -436,6 +436,9 @@ func (s *c12Sys) rescue() bool {
 }
 
 var c12Poisoned bool
+var c12Hangs int
+var c12SkipNoted bool
+var c12CapNoted bool
 var c12T [3]time.Duration
 var c12DumpT time.Duration
 var c12DumpN int
@@ -495,7 +498,11 @@ func c12RoundsStr(rounds []int) string {
 // c12Exec runs one gated schedule. choose gets the step index and the set of movable roles and
 // returns the role to move ("" = stop). It returns the roles moved and the enabled sets seen.
 func c12Exec(r *Run, kind string, rounds []int, choose func(i int, en []string) string, maxSteps int) (taken []string, enabled [][]string) {
-	if c12Poisoned {
+	if c12Poisoned || c12Hangs >= 3 {
+		if !c12SkipNoted {
+			c12SkipNoted = true
+			r.Note("C12: remaining schedule cases skipped after %d hangs", c12Hangs)
+		}
 		return nil, nil
 	}
 	tA := time.Now()
@@ -547,7 +554,8 @@ func c12Exec(r *Run, kind string, rounds []int, choose func(i int, en []string) 
 			if len(o.cmds) > len(sub) || strings.Join(sub[len(sub)-len(o.cmds):], ",") != strings.Join(o.cmds, ",") {
 				r.Failf("C12.fifo.schedule", line(), "queue %v is not a suffix of the submission order %v", o.cmds, sub)
 			}
-			if o.token > 1 || (o.cap1 >= 0 && o.cap1 != 1) {
+			if (o.token > 1 || (o.cap1 >= 0 && o.cap1 != 1)) && !c12CapNoted {
+				c12CapNoted = true
 				r.Failf("C12.signal-capacity", line(), "listener signal holds %d notifications, capacity %d", o.token, o.cap1)
 			}
 			if o.nEngines > 1 {
@@ -561,9 +569,14 @@ func c12Exec(r *Run, kind string, rounds []int, choose func(i int, en []string) 
 	tB := time.Now()
 	// liveness oracle: from wherever the schedule stopped, the free-running system must finish
 	r.Checked("sched.finish")
-	if !s.freeRun(3 * time.Second) {
+	limit := 2 * time.Second
+	if failed {
+		limit = 50 * time.Millisecond
+	}
+	if !s.freeRun(limit) {
+		c12Hangs++
 		if !failed {
-			r.Failf("C12.drain-hang."+kind, line(), "DrainCommandQueue did not return within 3 s after the gates were removed (queue=%v)", s.q.VerifCommandIDs())
+			r.Failf("C12.drain-hang."+kind, line(), "DrainCommandQueue did not return within 2 s after the gates were removed (queue=%v)", s.q.VerifCommandIDs())
 		}
 		if !s.rescue() {
 			c12Poisoned = true
